@@ -270,6 +270,23 @@ func checkC03(c *Ctx) Meta {
 	// ---- DERIVED
 	checkDerivedKeyLifetime(c)
 
+	// ---- HIER: private material is sealed only under the private hierarchy (the C04 key-hierarchy rule,
+	// here as the premise of "usable only with the private passphrase")
+	c.Rule("C03-HIER", "private keys, the master HD key and the private crypto key are encrypted only under keys of the private hierarchy (never under the public crypto key or the public master key, which a locked wallet holds), and an encrypting key is never used after it was zeroed", 12)
+	{
+		t := newTaintCtx(c)
+		var fns []*ssa.Function
+		for fn := range c.AllFuncs {
+			if inTaintScope(pkgOf(fn)) && len(fn.Blocks) > 0 {
+				fns = append(fns, fn)
+			}
+		}
+		sort.Slice(fns, func(i, j int) bool { return FuncName(fns[i]) < FuncName(fns[j]) })
+		c.aliasFrom, c.aliasTo = "C04-ENC", "C03-HIER"
+		c04Enc(c, t, fns)
+		c.aliasFrom, c.aliasTo = "", ""
+	}
+
 	// ---- SCRATCH
 	checkScratchKeys(c)
 
@@ -627,7 +644,7 @@ func checkDerivedKeyLifetime(c *Ctx) {
 				for _, a := range fieldAccesses(g) {
 					if a.Field == "Key" && strings.HasSuffix(a.Type, "snacl.SecretKey") && (a.Kind == "load" || a.Kind == "addr" || a.Kind == "addrarg") {
 						if backSlice(a.Base).has(newKey) || sameOriginValue(g, a.Base, newKey) {
-							copied = c.Pos(a.In.Pos())
+							copied = c.Pos(a.In.Pos()) + " "
 						}
 					}
 				}
